@@ -47,6 +47,7 @@ class FileModel:
         self.maxput = None; self.maxget = None
         self.saved = None       # schema snapshot taken at redef (for abort)
         self.ghost_redef_from = None
+        self.nvars_old = 0      # variables that existed when define mode was entered (0 for a new file)
         self._staged = None
 
     # ------------------------------------------------------------ helpers
@@ -101,7 +102,8 @@ class FileModel:
                  vars=[dict(n=v['name'].encode('utf-8').hex(), t=v['xtype'], id=i, dimids=list(v['dimids']), atts=atts(v['atts']), nofill=(None if v['nofill'] is None else (1 if v['nofill'] else 0))) for i, v in enumerate(self.vars)],
                  mfp={DEF_NEW: [D.NC_EINDEFINE, D.NC_EINDEFINE], DEF_RE: [D.NC_EINDEFINE, D.NC_EINDEFINE], COLL: [D.NC_ENOTINDEP, 0], INDEP: [0, D.NC_EINDEP]}.get(self.mode))
         ok = 0 if self.vars else D.NC_ENOTVAR
-        d['mfp2'] = {DEF_NEW: [D.NC_EINDEFINE, D.NC_EINDEFINE], DEF_RE: [D.NC_EINDEFINE, D.NC_EINDEFINE], COLL: [D.NC_ENOTINDEP, ok], INDEP: [ok, D.NC_EINDEP]}.get(self.mode)
+        okc = D.NC_EIOMISMATCH if (self.vars and not self.vars[0]['dimids']) else ok      # a scalar holds one element: the zero-length probe is a size mismatch
+        d['mfp2'] = {DEF_NEW: [D.NC_EINDEFINE, D.NC_EINDEFINE], DEF_RE: [D.NC_EINDEFINE, D.NC_EINDEFINE], COLL: [D.NC_ENOTINDEP, okc], INDEP: [ok, D.NC_EINDEP]}.get(self.mode)
         if un >= 0: d['numrecs'] = self.numrecs
         return d
 
@@ -117,14 +119,36 @@ class FileModel:
     def op_enddef(self, o):
         if not self.indef(): return D.NC_ENOTINDEFINE
         if o.get('neg'): return D.NC_EINVAL
+        self._fill_new_vars()
         self.mode = COLL; self.saved = None
         return 0
     op__enddef = op_enddef
+
+    def fill_enabled(self, v):
+        return (self.vars[v]['nofill'] is False) or self.findatt(v, '_FillValue') >= 0
+
+    def fillvalue(self, v):
+        i = self.findatt(v, '_FillValue')
+        if i >= 0 and len(self.vars[v]['atts'][i][2]) >= 1:
+            x = self.vars[v]['atts'][i][2]
+            return x[0]
+        return DEFAULT_FILL[self.vars[v]['xtype']]
+
+    def _fill_new_vars(self):
+        """leaving define mode: variables defined in this define-mode session are filled when their fill mode is on"""
+        for v in range(self.nvars_old, len(self.vars)):
+            if self.vars[v]['nofill'] is not False: continue        # a _FillValue attribute alone does not switch fill mode on
+            n = self.inner(v) * (self.numrecs if self.isrec(v) else 1)
+            fv = self.fillvalue(v)
+            dd = self.data.setdefault(v, {})
+            for k in range(n): dd.setdefault(k, fv)
+        self.nvars_old = len(self.vars)
 
     def op_redef(self, o):
         if self.rdonly: return D.NC_EPERM
         if self.indef(): return D.NC_EINDEFINE
         self.saved = dict(dims=copy.deepcopy(self.dims), gatts=copy.deepcopy(self.gatts), vars=copy.deepcopy(self.vars), fillmode=self.fillmode)
+        self.nvars_old = len(self.vars)
         self.ghost_redef_from = self.mode      # ghost: does not influence the model, only keeps such states apart in the search
         self.mode = DEF_RE
         return 0
@@ -201,6 +225,11 @@ class FileModel:
         if v == -1: return D.NC_EGLOBAL
         if v < 0 or v >= len(self.vars): return D.NC_ENOTVAR
         self.vars[v]['nofill'] = bool(o.get('nofill', 0))
+        if not o.get('nofill', 0) and o.get('val') is not None:
+            a = ['_FillValue', self.vars[v]['xtype'], [o['val']], att_xsz(self.vars[v]['xtype'], 1)]
+            i = self.findatt(v, '_FillValue')
+            if i >= 0: self.vars[v]['atts'][i] = a
+            else: self.vars[v]['atts'].append(a)
         return 0
 
     # ---- attributes
@@ -218,6 +247,10 @@ class FileModel:
         xt = o['xtype']; vals = o['vals']
         if xt < 1 or xt > 11: return D.NC_EBADTYPE
         if xt > 6 and self.fmt != 5: return D.NC_ESTRICTCDF2
+        if name == '_FillValue' and v != -1:
+            if xt != self.vars[v]['xtype']: return D.NC_EBADTYPE
+            if len(vals) != 1: return D.NC_EINVAL
+            if self.mode == DEF_RE and v < self.nvars_old: return D.NC_ELATEFILL
         lst = self.attlist(v)
         i = self.findatt(v, name)
         if i >= 0:
@@ -423,9 +456,7 @@ class FileModel:
         if cand: return cand
         unknown = self.vars[v]['nofill'] is None and self.findatt(v, '_FillValue') < 0
         rec = o['rec']
-        fv = DEFAULT_FILL[self.vars[v]['xtype']]
-        i = self.findatt(v, '_FillValue')
-        if i >= 0: fv = self.vars[v]['atts'][i][2][0]
+        fv = self.fillvalue(v)
         n = self.inner(v)
         dd = self.data.setdefault(v, {})
         for k in range(rec * n, (rec + 1) * n): dd[k] = fv
